@@ -248,7 +248,8 @@ func (b *rNode) valid() bool {
 		if curr < prev {
 			return false
 		} else if curr != prev {
-			if tTag := b[(8*i)+7]; tTag == 0xFD {
+			// The non-empty DRange [prev, curr) belongs to the (i-1)'th element.
+			if tTag := b[(8*(i-1))+7]; tTag == 0xFD {
 				return false
 			}
 		}
